@@ -54,7 +54,7 @@ def attempt(act, rng, framing, op, timeout, gen):
 
 def mk(kind, framing, kw, ops, extra=None):
     scn = {'property': ID, 'harness': 'cli', 'client': {'kind': kind, 'framing': framing, 'kwargs': kw},
-           'callers': [ops], 'cpu_step': 1e-3, 'sched': {'tail_seed': 1}, 'max_vtime': 900.0}
+           'callers': [ops], 'cpu_step': 1e-5, 'sched': {'tail_seed': 1}, 'max_vtime': 900.0}
     if extra:
         scn.update(extra)
     return scn
@@ -81,8 +81,14 @@ def generate(rng, tier, index):
         n = rng.choice([1, 1, 2, 3, 4, 5])
         op['script'] = [attempt(rng.choice(enabled), rng, framing, op, timeout, gen) for _ in range(n)]
         ops.append(op)
-    ops.append(gen.op(unit=unit, maxn=20, exc_rate=0.0))      # healthy follow-up
-    extra = {'cpu_step': rng.choice([1e-3, 2e-3]), 'sched': {'tail_seed': rng.randrange(1 << 30)}}
+    # faults must have stopped before the follow-up: let every scripted peer action (late replies,
+    # resets) arrive first
+    ops[-1]['think'] = round(2 * timeout + 0.1, 6)
+    # two healthy follow-ups: a connection the peer reset while the client was idle is only
+    # discovered by using it, so the first follow-up may still pay for that; the last one is judged
+    ops.append(gen.op(unit=unit, maxn=20, exc_rate=0.0))
+    ops.append(gen.op(unit=unit, maxn=20, exc_rate=0.0))      # healthy follow-up (judged)
+    extra = {'cpu_step': rng.choice([2e-6, 1e-5, 5e-5]), 'sched': {'tail_seed': rng.randrange(1 << 30)}}
     if rng.random() < 0.08 and kind in ('tcp', 'serial'):
         extra['connect_script'] = rng.choice([['refuse'], ['ok', 'refuse'], ['refuse', 'ok']])
     return mk(kind, framing, kw, ops, extra)
@@ -105,8 +111,10 @@ def systematic(tier):
                 gen = cc.OpGen(random.Random(7), framing)
                 op = gen.op(fn='read_holding_registers', unit=1, exc_rate=0.0, maxn=4)
                 op['script'] = [attempt(a, None, framing, op, timeout, gen) for a in sc]
+                op['think'] = round(2 * timeout + 0.1, 6)
+                follow0 = gen.op(fn='read_coils', unit=1, exc_rate=0.0, maxn=8)
                 follow = gen.op(fn='write_register', unit=1, exc_rate=0.0)
-                yield mk(kind, framing, dict(kw), [op, follow])
+                yield mk(kind, framing, dict(kw), [op, follow0, follow])
 
 
 def execute(scn):
